@@ -504,7 +504,8 @@ def check_C08(tier):
             c['spell'] = core.seed() * 7919 + i
     explore('C08', tier, rep, cases)
     # the thread clause: two threads issuing the same key, every schedule up to the preemption bound
-    explore_threads('C08', tier, rep, ['dup_file', 'dup_sub', 'dup_sub_cached', 'dup_sub_json_equal', 'dup_sub_json_equal_cached'],
+    explore_threads('C08', tier, rep, ['dup_file', 'dup_sub', 'dup_sub_cached', 'dup_sub_json_equal', 'dup_sub_json_equal_cached',
+                                       'dup_cached_in_callers', 'dup_file_cached_in_callers', 'dup_file_in_cached_sub'],
                     budget(tier, 2, 3), budget(tier, 500, 8000))
     return finish('C08', rep, gate)
 
@@ -853,11 +854,93 @@ def bigfile_probe(tier, rep):
     return problems
 
 
+def metadata_probe(tier, rep):
+    """C13 where the models cannot go: an input reached through a symbolic link (the models have no links) and an output
+    swapped for an identical copy (same bytes, size and mtime_ns - another inode).  METADATA is size + mtime_ns of what a
+    read reads: editing the link's target must re-execute the reader; swapping an output for an identical copy must
+    re-execute nothing; a changed mtime must re-execute the maker."""
+    import shutil
+    import tempfile
+    fb = realrun.load_fb()
+    FB = fb.FileBuilder
+    problems = []
+    root = os.path.realpath(tempfile.mkdtemp(prefix='fbh_meta_', dir=realrun.SANDBOX_BASE))
+    try:
+        cache = os.path.join(root, 'cache.gz')
+        real = os.path.join(root, 'data', 'real.txt')
+        link = os.path.join(root, 'link.txt')
+        out = os.path.join(root, 'o', 'out.txt')
+        os.makedirs(os.path.dirname(real))
+        with open(real, 'w') as fh:
+            fh.write('one')
+        os.symlink(real, link)
+        ran = []
+
+        def rd(b, mode):
+            ran.append('reader:' + mode)
+            with b.read_text(link, getattr(fb.FileComparison, mode)) as fh:
+                return fh.read()
+
+        def mk(b, fn):
+            ran.append('maker')
+            with open(fn, 'w') as fh:
+                fh.write('output')
+            os.utime(fn, ns=(1_650_000_000_000_000_000, 1_650_000_000_000_000_000))
+
+        def nested(b):
+            ran.append('nested')
+            return b.subbuild('rd_nested', rd, 'METADATA')
+
+        def rootf(b):
+            b.subbuild('rd_m', rd, 'METADATA')
+            b.subbuild('rd_h', rd, 'HASH')
+            b.subbuild('nested', nested)
+            b.build_file(out, 'mk', mk)
+        FB.build(cache, 'n', rootf)
+        del ran[:]
+        FB.build(cache, 'n', rootf)
+        if ran:
+            problems.append({'what': 'an unchanged rebuild with a symlinked input re-executed %s' % ran})
+        # the target of the link is edited (new size, new mtime): every reader runs again
+        with open(real, 'w') as fh:
+            fh.write('two, longer')
+        del ran[:]
+        FB.build(cache, 'n', rootf)
+        rep.count('metadata_probe_steps')
+        for want in ('reader:METADATA', 'reader:HASH', 'nested'):
+            if want not in ran:
+                problems.append({'what': 'the target of a symbolic link read with %s was edited (size and mtime changed) and %s was not re-executed (re-executed: %s)'
+                                         % (want.split(':')[-1] if ':' in want else 'METADATA in a nested subbuild', want, sorted(set(ran)))})
+        # the output is swapped for an identical copy: same bytes, size, mtime_ns - nothing to re-execute
+        st = os.stat(out)
+        tmp = out + '.copy'
+        shutil.copy2(out, tmp)
+        os.utime(tmp, ns=(st.st_atime_ns, st.st_mtime_ns))
+        os.replace(tmp, out)
+        if os.stat(out).st_mtime_ns == st.st_mtime_ns and os.stat(out).st_ino != st.st_ino:
+            del ran[:]
+            FB.build(cache, 'n', rootf)
+            rep.count('metadata_probe_steps')
+            if ran:
+                problems.append({'what': 'an output compared by METADATA was swapped for an identical copy (same size and mtime_ns, another inode) and %s was re-executed' % ran})
+        # only the mtime changes: the maker runs again
+        os.utime(out, ns=(st.st_atime_ns, st.st_mtime_ns + 1000))
+        del ran[:]
+        FB.build(cache, 'n', rootf)
+        if 'maker' not in ran:
+            problems.append({'what': 'the mtime of an output compared by METADATA changed and its function was not re-executed'})
+    except Exception as e:
+        problems.append({'what': 'the metadata probe raised %s: %s' % (type(e).__name__, str(e)[:160])})
+    finally:
+        shutil.rmtree(root, ignore_errors=True)
+    return problems
+
+
 def check_C13(tier):
     return run_hist_prop('C13', tier, 13, 200, 10000, families=[gen.scen_reads, gen.scen_stamped, gen.scen_selfread, gen.scen_sibling_outputs, gen.scen_read_after_caught_failure], per_family=(120, 3000),
                          extra_cases=c13_cases, prof=dict(gen.DEFAULT_PROFILE, p_hash=0.5),
                          _after=lambda rep: [rep.violation('bigfile', {'property': 'C13', 'kind': 'failing-input', 'what': q},
-                                                           note=json.dumps(q, default=str)[:250]) for q in bigfile_probe(tier, rep)[:2]])
+                                                           note=json.dumps(q, default=str)[:250]) for q in (bigfile_probe(tier, rep) + metadata_probe(tier, rep))[:3]])
 
 
 def c15_cases(tier, ds):
@@ -1270,7 +1353,7 @@ def explore_threads(prop, tier, rep, names, bound, cap):
 C09_SCENARIOS = ['shared_new_dir', 'shared_new_dir_deep', 'sibling_dirs', 'mixed_depth', 'one_fails', 'both_fail', 'fail_alone_in_dir',
                  'stale_dir', 'stale_dir_queries', 'queries_vs_build', 'subbuilds', 'three_threads', 'dup_file', 'dup_sub',
                  'dup_sub_cached', 'dup_sub_json_equal', 'rebuild_two_then_fail', 'build_two_then_fail', 'overwrite_foreign_then_fail',
-                 'hash_two_inputs', 'hash_two_outputs']
+                 'hash_two_inputs', 'hash_two_outputs', 'dup_cached_in_callers', 'dup_file_cached_in_callers', 'dup_file_in_cached_sub']
 
 
 def check_C09(tier):
